@@ -706,6 +706,31 @@ func vlL2(out *zzverif.Out, line string, stops []string, script []vlEv, res vlRe
 		}
 		return
 	}
+	// "as soon as": generation ends WITH the token that completes the earliest stop / with the EOS token / with the
+	// limit-th token — no token is sampled after the terminating event
+	{
+		want, acc := -1, ""
+		for k, e := range script[:res.consumed] {
+			if e.eos {
+				want = k + 1
+				break
+			}
+			acc += e.piece
+			hit := false
+			for _, st := range stops {
+				if strings.Contains(acc, st) {
+					hit = true
+				}
+			}
+			if hit {
+				want = k + 1
+				break
+			}
+		}
+		if want >= 0 && res.consumed != want {
+			out.L2("sampled-after-end", line, fmt.Sprintf("runner=llama tokens_sampled=%d terminating_event_is_token=%d", res.consumed, want))
+		}
+	}
 	for _, st := range stops {
 		if strings.Contains(o, st) {
 			out.L2("stop-in-output", line, fmt.Sprintf("class=other runner=llama stop=%x out=%x", st, o))
